@@ -289,6 +289,31 @@ def sanitize(v, tier, seed):
                                 % (len(results), clean)}
 
 
+def retarget_walk(v, tier, seed):
+    """Steered history of finding F8 (fixed by 1dae154): a dispatch_sync waiter walks the target queues of a legacy queue
+    under that queue's side lock without holding references; the deferred retarget must take the same lock before it
+    stores the new target and releases the old one.  harness/drv_retarget.c (mode walk) holds the waiter right before it
+    reads the old target's state word, retargets, and requires that the old target's _dispatch_dispose probe does not
+    fire while the waiter is held."""
+    drv = build_driver("drv_retarget")
+    tr = os.path.join(rundir(PROP), "retarget_walk.ndjson")
+    rounds = 6 if tier == "quick" else 30
+    rc, out, err = sh([drv, tr, str(seed * 100 + 78), str(rounds), "walk"], timeout=900)
+    m = re.search(r"rounds=(\d+) windows_hit=(\d+)", err)
+    if rc in (2, 70, 71):
+        fails = re.findall(r"ORACLE-FAIL C\d\d (.*)", err)
+        p = save_replay(PROP, "retarget_walk_fail.ndjson", src=tr) if os.path.exists(tr) else tr
+        v.violation("%s: %s" % ({2: "object freed while in use", 70: "crash inside libdispatch", 71: "hang"}[rc],
+                                "; ".join(fails[:3]) or err.strip()[-300:]), p)
+        return
+    if rc != 0 or not m:
+        raise Broken("drv_retarget walk failed rc=%d: %s" % (rc, err[-500:]))
+    if int(m.group(2)) == 0:
+        raise Broken("drv_retarget walk never held a waiter inside its walk (steering ineffective)")
+    v.traces += 1
+    v.notes["retarget_walk_windows_hit"] = "%s of %s rounds" % (m.group(2), m.group(1))
+
+
 def run(tier, seed):
     v = Verdict(PROP, tier, seed)
     v.assumptions = ["TLC bounds: one lane, 2 clients, 2 workers, 1-4 items (see models); the target of the lane is an abstract root queue",
@@ -300,6 +325,7 @@ def run(tier, seed):
     if tier == "thorough":
         simulate(v, seed)
     drive(v, tier, seed)
+    retarget_walk(v, tier, seed)
     if tier == "thorough" or os.environ.get("VERIF_C17_ASAN") == "1":
         sanitize(v, tier, seed)
     else:
